@@ -38,11 +38,18 @@ place (only `<name>.fits.gz` left).  Distance-dependent cases may fit with `remo
 fluxes growing with aperture so that the option removes part, all or none of the distance range of a model); the
 variants must agree as always.
 
+Re-convolution history (a share of cases, on copies of both packages): the package is revised (every SED rescaled, table
+and cube re-ordered) and convolved again — with the default overwrite=False the code must refuse and leave the files
+untouched (if it returns, what it left is held against the revised package), with overwrite=True (keyword or
+positional, filters possibly deep-copied) every file must follow the revised package.
+
 Model side: driver `ordermatch` (= `sortToMatch`) on (SED names in directory-listing order, table
 names) predicts which listing position lands in which row; `convnames 1|2` (= `convolveV1/V2` on tagged
 SEDs) predicts names and row contents of both formats (driver op `convnames`).
 """
+import copy
 import gzip
+import hashlib
 import itertools
 import os
 import shutil
@@ -75,7 +82,7 @@ REQUIRED_BRANCHES = ['perfile', 'cube', 'conv_memmap_on', 'conv_memmap_off', 'fi
                      'perfile_fit_memmap_on', 'cube_table_permuted', 'cube_table_same_order',
                      'cube_val_unc_units_differ', 'sed_flux_err_units_differ',
                      'fitters_alive_together', 'second_memmap_fitter_other_package', 'convolved_gz', 'parameters_gz',
-                     'remove_resolved_on', 'remove_resolved_changes_fit',
+                     'remove_resolved_on', 'remove_resolved_changes_fit', 'reconvolve_default_refused', 'reconvolve_overwrite_true',
                      'table_names_S', 'table_names_U', 'table_name_col_first', 'table_name_col_middle', 'table_name_col_last',
                      'table_col_dtype_f8', 'table_col_dtype_f4', 'table_col_dtype_i4', 'table_col_dtype_i8',
                      'cube_names_str', 'cube_names_bytes', 'cube_names_padded', 'fit_aperture_dependent', 'fit_aperture_independent', 'multi_aperture_fit_aperture_independent',
@@ -247,6 +254,10 @@ def gen_case(rng, n=None, table_perm=None, directed=None):
                rel=[nice(rng, 0.08, 0.3, 2) for _ in range(nf)])
     trepr = dict(name_dtype=rng.choice(['S', 'U']), name_pos=rng.choice(['first', 'middle', 'last']),
                  col_dtype=rng.choice(['f8', 'f4', 'i4', 'i8', '>f8']))
+    reconv = None
+    if directed.get('reconv', rng.random() < 0.3):
+        reconv = dict(scale=[nice(rng, 0.2, 5., 2) for _ in range(n)], table=rng.sample(range(n), n), cube=rng.sample(range(n), n),
+                      deepcopy=rng.random() < 0.5, positional=rng.random() < 0.5)
     stage = directed.get('stage', rng.choice([None, None, 'write_parameters', 'write_parameter_ranges', 'extract_parameters']))
     gz_par = directed.get('gz_par', rng.random() < 0.3)
     if gz_par and not stage:        # somebody has to read the gzipped parameter table
@@ -255,7 +266,7 @@ def gen_case(rng, n=None, table_perm=None, directed=None):
                 sed_store=directed.get('sed_store', rng.choice(['nu_inc', 'nu_dec'])),
                 cube_store=directed.get('cube_store', rng.choice(['nu_inc', 'nu_dec'])),
                 g=g, h=h, c=c, e=e, tilt=tilt, etilt=etilt, general=general, filters=filters, src=src, av=[0., 40.],
-                stage=stage, table_repr=trepr, cube_names_repr=rng.choice(['str', 'bytes', 'padded']),
+                stage=stage, reconv=reconv, table_repr=trepr, cube_names_repr=rng.choice(['str', 'bytes', 'padded']),
                 resolved=resolved, gz_conv=directed.get('gz_conv', rng.choice(['none', 'none', 'some', 'all'])),
                 gz_par=gz_par, apdep=ap_dep, second_pkg=directed.get('second_pkg', rng.random() < 0.5),
                 fit_order=rng.sample([0, 1, 2, 3], 4), flat=flat, unit_sed=unit_sed, unit_cube=unit_cube, unit_sed_err=unit_sed_err, unit_cube_unc=unit_cube_unc,
@@ -263,8 +274,8 @@ def gen_case(rng, n=None, table_perm=None, directed=None):
 
 
 DIRECTED = [
-    dict(n=6, nap=4, nf=3, flat=True, resolved=True, sed_store='nu_inc', cube_store='nu_dec', pad=True, gz_conv='none', gz_par=False, second_pkg=True),
-    dict(n=5, nap=3, nf=2, flat=False, general=True, resolved=True, sed_store='nu_dec', cube_store='nu_inc', pad=False, gz_conv='some', gz_par=False),
+    dict(n=6, nap=4, nf=3, flat=True, resolved=True, reconv=True, sed_store='nu_inc', cube_store='nu_dec', pad=True, gz_conv='none', gz_par=False, second_pkg=True),
+    dict(n=5, nap=3, nf=2, flat=False, general=True, resolved=True, reconv=True, sed_store='nu_dec', cube_store='nu_inc', pad=False, gz_conv='some', gz_par=False),
     dict(n=1, nap=1, nf=2, flat=True, gz_conv='all', gz_par=True, sed_store='nu_inc', cube_store='nu_dec', pad=True, stage='write_parameters', no_aps=True, unit_sed='Jy', unit_cube='mJy', unit_sed_err='mJy', unit_cube_unc='Jy', cube_perm=True),
     dict(n=8, nap=5, nf=3, flat=False, general=True, stage='write_parameters', second_pkg=True, resolved=True, gz_conv='some', gz_par=True, sed_store='nu_dec', cube_store='nu_inc', pad=True, name30=True, subdir=True),
     dict(n=3, nap=1, nf=3, flat=True, sed_store='nu_dec', cube_store='nu_dec', pad=False, name30=True, stage='write_parameter_ranges', no_aps=True, unit_sed='erg/cm2/s', unit_cube='Jy', unit_sed_err='Jy', unit_cube_unc='mJy', cube_perm=True),
@@ -393,6 +404,89 @@ def cube_names_repr(case):
         w = min(30, max(len(x) for x in case['cube']) + 2)
         return np.array([x.ljust(w) for x in case['cube']], dtype='U%d' % w)
     return case['cube']
+
+
+def write_tables(case, d1, d2):
+    names = case['names']
+    tr = table_repr(case)
+    write_table_repr(d1, case['table'], {'PAR1': [float(names.index(t.strip())) for t in case['table']],
+                                         'PAR2': [float(7 * names.index(t.strip()) + 1) for t in case['table']]}, **tr)
+    write_table_repr(d2, case['cube'], {'PAR1': [float(names.index(x)) for x in case['cube']],
+                                        'PAR2': [float(7 * names.index(x) + 1) for x in case['cube']]}, **tr)
+
+
+def revised(case):
+    """the package after a revision: every SED recalibrated by a model-specific factor, the parameter table and the
+    cube put into another row order"""
+    rv = case['reconv']
+    rc = dict(case)
+    rc['c'] = [[v * f for v in row] for row, f in zip(case['c'], rv['scale'])]
+    pad = {t.strip(): t for t in case['table']}
+    rc['table'] = [pad[case['names'][i]] for i in rv['table']]
+    rc['cube'] = [case['names'][i] for i in rv['cube']]
+    rc['cube_table'] = None
+    return rc
+
+
+def reconvolve_history(case, d, d1, d2, filters, fnames, br):
+    """a package that has been convolved, is then revised, and is convolved again: with the default overwrite=False
+    the code must refuse and leave the files alone (should it return instead, the files it leaves are held against
+    the revised package); with overwrite=True every file must follow the revised package.
+    Returns (property failures, model / implementation disagreements)"""
+    from sedfitter.convolve import convolve_model_dir
+    fails, dis = [], []
+    rc = revised(case)
+    flt = copy.deepcopy(filters) if case['reconv'].get('deepcopy') else filters
+    jobs = []
+    for what, src, expect, build in (('per-file', d1, [t.strip() for t in rc['table']], build_perfile),
+                                     ('cube', d2, rc['cube'], build_cube)):
+        dd = os.path.join(d, 'revised_' + what)
+        shutil.copytree(src, dd)
+        jobs.append((what, dd, expect, build))
+    for what, dd, expect, build in jobs:
+        build(rc, dd)
+    write_tables(rc, jobs[0][1], jobs[1][1])
+    for what, dd, expect, build in jobs:
+        paths = [os.path.join(dd, 'convolved', fn + '.fits') for fn in fnames]
+        before = [hashlib.sha256(open(p_, 'rb').read()).hexdigest() for p_ in paths]
+        try:
+            with common.quiet():
+                convolve_model_dir(dd, flt)                  # overwrite defaults to False
+            refused = None
+        except Exception as ex:
+            refused = type(ex).__name__
+        after = [hashlib.sha256(open(p_, 'rb').read()).hexdigest() for p_ in paths]
+        if refused:
+            br.add('reconvolve_default_refused')
+            if after != before:
+                fails.append('%s package convolved again with overwrite=False: raised %s but changed %d of its convolved files'
+                             % (what, refused, sum(a != b for a, b in zip(after, before))))
+        else:
+            stale = []
+            for fn, filt in zip(fnames, case['filters']):
+                tab, via = read_convolved(os.path.join(dd, 'convolved', fn + '.fits'))
+                f, _ = check_file(rc, tab, via, expect, fn, filt, '%s package revised and convolved again with overwrite=False (call returned):' % what)
+                stale += f
+            if stale:
+                fails += stale
+            else:
+                dis.append('%s package convolved again with overwrite=False: the code is expected to refuse (existing files); '
+                           'it returned (files follow the revised package)' % what)
+        try:
+            with common.quiet():
+                if case['reconv'].get('positional'):
+                    convolve_model_dir(dd, flt, True)
+                else:
+                    convolve_model_dir(dd, flt, overwrite=True)
+        except Exception as ex:
+            fails.append('%s package revised and convolved again with overwrite=True: raised %s: %s' % (what, type(ex).__name__, ex))
+            continue
+        br.add('reconvolve_overwrite_true')
+        for fn, filt in zip(fnames, case['filters']):
+            tab, via = read_convolved(os.path.join(dd, 'convolved', fn + '.fits'))
+            f, _ = check_file(rc, tab, via, expect, fn, filt, '%s package revised and convolved again with overwrite=True:' % what)
+            fails += f
+    return fails, dis
 
 
 def build_perfile(case, d1):
@@ -731,10 +825,7 @@ def impl_side(case, d):
     build_cube(case, d2)
     # the parameter tables in the representation the case names (overwrites the plain float64 / MODEL_NAME-first ones)
     tr = table_repr(case)
-    write_table_repr(d1, case['table'], {'PAR1': [float(names.index(t.strip())) for t in case['table']],
-                                         'PAR2': [float(7 * names.index(t.strip()) + 1) for t in case['table']]}, **tr)
-    write_table_repr(d2, case['cube'], {'PAR1': [float(names.index(x)) for x in case['cube']],
-                                        'PAR2': [float(7 * names.index(x) + 1) for x in case['cube']]}, **tr)
+    write_tables(case, d1, d2)
     br |= {'table_names_' + tr['name_dtype'], 'table_name_col_' + tr['name_pos'], 'table_col_dtype_' + tr['col_dtype'].strip('>'),
            'cube_names_' + case.get('cube_names_repr', 'str')}
     filters = make_filters(case)
@@ -837,6 +928,13 @@ def impl_side(case, d):
                                      % (fn, lab, w, [float(v) for v in x], mm, w, [float(v) for v in y]))
     if fails:
         return fails, obs, br
+
+    # ---- convolved once, revised, convolved again (on copies of the two packages)
+    if case.get('reconv'):
+        f, dis_ = reconvolve_history(case, d, d1, d2, filters, fnames, br)
+        obs['reconv_dis'] = dis_
+        if f:
+            return f, obs, br
 
     # ---- fits from every variant agree
     sm = case['src']['model']
@@ -998,7 +1096,7 @@ def model_side(case, obs):
 
 def compare_model(case, obs, mod):
     """model prediction against the identified content of the real files"""
-    dis = []
+    dis = list(obs.get('reconv_dis', []))
     if 'cube_table' in mod:
         want = {'namesMismatch': 'ValueError', None: None}.get(mod['cube_table'], mod['cube_table'])
         if obs['cube_table_outcome'] != want:
